@@ -594,11 +594,43 @@ def r20_8(chk):
     chk.floor("R20.8", 3, "predicate, sort, compression suffix")
 
 
+def r20_9(chk):
+    chk.rule("R20.9", "join keys: the two key-column lists of inner_join are compared position by position, so in the natural-join branch (no columns given) both lists come from ONE ordering of the shared names (the second is a copy of the first), never from each table's own column order; and joined() hands col_prefix to whichever join it delegates to")
+    m = chk.repo.module(TABLE)
+    ci = m.cls("Table")
+    fn = ci.methods["inner_join"]
+    # the branch that computes the shared names
+    branches = [i for i in walk_no_nested(fn) if isinstance(i, ast.If) and any(isinstance(st, ast.Assign) and isinstance(st.value, ast.BinOp) and isinstance(st.value.op, ast.BitAnd) for st in i.body)]
+    if not branches:
+        raise AnalysisError("Table.inner_join: natural-join branch (shared = set(...) & set(...)) not found")
+    br = branches[0]
+    assigns = {norm(st.targets[0]): st for st in br.body if isinstance(st, ast.Assign)}
+    cs, co = assigns.get("columns_self"), assigns.get("columns_other")
+    if cs is None or co is None:
+        raise AnalysisError("Table.inner_join: natural-join branch does not bind both key lists")
+    iter_roots = lambda st: {norm(g.iter) for n in ast.walk(st.value) if isinstance(n, (ast.ListComp, ast.GeneratorExp)) for g in n.generators}  # noqa: E731
+    same_order = "columns_self" in D.names_in(co.value) or "columns_other" in D.names_in(cs.value) or (iter_roots(cs) == iter_roots(co) and iter_roots(cs))
+    chk.decide(bool(same_order), "R20.9", key(m, "Table.inner_join", "natural-join keys from one ordering"), m.loc(co), f"columns_other = {norm(co.value)}", f"columns_self iterates {sorted(iter_roots(cs))} and columns_other iterates {sorted(iter_roots(co))}: when the shared columns appear in a different order in the two tables, column i of one list is compared with a differently named column of the other")
+    j = ci.methods["joined"]
+    n = 0
+    for c in walk_no_nested(j):
+        if isinstance(c, ast.Call) and isinstance(c.func, ast.Attribute) and norm(c.func.value) == "self" and c.func.attr in ("inner_join", "cross_join"):
+            n += 1
+            target = ci.methods.get(c.func.attr)
+            accepts = target is not None and "col_prefix" in params_of(target)
+            fwd = any(kw.arg == "col_prefix" and norm(kw.value) == "col_prefix" for kw in c.keywords)
+            chk.decide(fwd or not accepts, "R20.9", key(m, "Table.joined", f"col_prefix forwarded to {c.func.attr}"), m.loc(c), "col_prefix=col_prefix", f"joined() does not pass its col_prefix to {c.func.attr}(): the option is silently ignored and the other table's columns get the default prefix")
+    if n < 2:
+        raise AnalysisError("Table.joined: delegation calls not found")
+    chk.floor("R20.9", 3, "key ordering + two delegations")
+
+
 def try_kind(e):
     return e.value if isinstance(e, ast.Constant) else None
 
 
 def run(chk):
+    r20_9(chk)
     r20_7(chk)
     r20_8(chk)
     r20_6(chk)
